@@ -183,3 +183,39 @@ def named(m, name=None):
     for p, v in zip(params, m.args[2:]):
         out.setdefault(p, v)
     return out if name is None else out.get(name)
+
+
+def borrow(chk, S, into_rule, from_pid: str, select):
+    """Import the obligations of another property's check that ``select(rule_id, construct)`` accepts into ``into_rule``.
+
+    Properties overlap: a clause of one statement (e.g. "...and calibration mode" in C02) is decided by a rule that lives with another
+    property (C04).  The lending check is run once per process on the same program model; its obligations keep their status, detail,
+    location and configuration and are re-labelled with the borrowing rule.  Returns the number imported.
+    """
+    import importlib
+
+    from . import report
+
+    cache = getattr(S, "_borrow_cache", None)
+    if cache is None:
+        cache = S._borrow_cache = {}
+    lender = cache.get(from_pid)
+    if lender is None:
+        mod = importlib.import_module(f"pdqverif.rules.{from_pid.lower()}")
+        lender = report.Check(from_pid, "quick", 0, "", level="other")
+        S2 = Session(S.p)
+        S2._borrow_cache = cache  # lenders may borrow as well (no cycles in the table)
+        cache[from_pid] = lender
+        try:
+            mod.run(lender, S2)
+        except AnalysisError as e:
+            lender.analysis_error(str(e))
+    n = 0
+    for r in lender.rules:
+        for o in r.obls:
+            if select(o.rule, o.construct):
+                into_rule._add(o.status, f"[{o.rule}] {o.construct}", o.detail, o.where, o.config, o.nontrivial)
+                n += 1
+    if lender.errors and n == 0:
+        into_rule.unknown(f"obligations of {from_pid}", f"the lending check could not be analysed: {lender.errors[0][:200]}")
+    return n
